@@ -255,6 +255,38 @@ func (e *Engine) VerifyFunc(fn *ssa.Function, blk *Block, props []string) (err e
 	if len(x.rets) == 0 && (blk == nil || !blk.Has("noreturn")) {
 		// a function none of whose paths return: every path panics or loops
 	}
+	// "focus <substr>, ...": a PARTIAL check of a function too large to bring
+	// under a full contract: only the obligations whose name contains one of
+	// the substrings are kept (e.g. the conformance preconditions of one
+	// callee); the others are neither proved nor reported, which the evidence
+	// lists as an assumption ("on executions that do not fail earlier").
+	if blk != nil && len(blk.Of("focus")) > 0 {
+		var pats []string
+		for _, cl := range blk.Of("focus") {
+			for _, it := range splitTop(cl.Text, ',') {
+				if it = trim(it); it != "" {
+					pats = append(pats, it)
+				}
+			}
+		}
+		kept := e.Obls[:start:start]
+		dropped := 0
+		for _, ob := range e.Obls[start:] {
+			keep := false
+			for _, p := range pats {
+				if strings.Contains(ob.Name, p) {
+					keep = true
+				}
+			}
+			if keep {
+				kept = append(kept, ob)
+			} else {
+				dropped++
+			}
+		}
+		e.Obls = kept
+		e.Assumed[fmt.Sprintf("%s: PARTIAL check (focus %s): %d other obligations of this function (nil, bounds, panics, callee preconditions) are not checked; the focused ones hold on executions that do not fail earlier", shortFuncKey(fn), strings.Join(pats, ", "), dropped)] = true
+	}
 	return nil
 }
 
